@@ -42,6 +42,7 @@ type ParserData struct {
 		textPos   int
 		codePos   []int
 		pos       int // CodePush 时的文本位置
+		loopLayer int // 函数体/computed内不能 break/continue 到外层循环(跳转会写进另一段代码)
 	}
 }
 
@@ -507,7 +508,7 @@ func (p *ParserData) dropStaleCodeFrames() {
 	for n := len(p.codeStack); n > 0 && p.codeStack[n-1].pos > cur; n = len(p.codeStack) {
 		info := p.codeStack[n-1]
 		p.codeStack = p.codeStack[:n-1]
-		p.code, p.codeIndex, p.codePos = info.code, info.index, info.codePos
+		p.code, p.codeIndex, p.codePos, p.loopLayer = info.code, info.index, info.codePos, info.loopLayer
 	}
 }
 
@@ -519,10 +520,12 @@ func (p *ParserData) CodePush(textPos int) {
 		textPos   int
 		codePos   []int
 		pos       int
-	}{code: p.code, index: p.codeIndex, textPos: textPos, codePos: p.codePos, pos: p.curPos()})
+		loopLayer int
+	}{code: p.code, index: p.codeIndex, textPos: textPos, codePos: p.codePos, pos: p.curPos(), loopLayer: p.loopLayer})
 	p.code = make([]ByteCode, 256)
 	p.codeIndex = 0
 	p.codePos = nil
+	p.loopLayer = 0
 }
 
 func (p *ParserData) CodePop() ([]ByteCode, int, int) {
@@ -544,5 +547,6 @@ func (p *ParserData) CodePop() ([]ByteCode, int, int) {
 	p.code = info.code
 	p.codeIndex = info.index
 	p.codePos = info.codePos
+	p.loopLayer = info.loopLayer
 	return lastCode, lastIndex, info.textPos
 }
